@@ -118,6 +118,9 @@ func Run(r *fw.Run) {
 		if c.Choose(2, "plus TCP 81-65535") == 1 {
 			fs = append(fs, frags[7])
 		}
+		if c.Choose(2, "plus the named port http, listed first") == 1 {
+			fs = append([]wm.NPPort{{HasPort: true, Name: "http"}}, fs...)
+		}
 		exp := c.Choose(2, "exposure") == 1
 		w := base()
 		mk := func(name string, rules []wm.NPRule) wm.NP {
